@@ -540,9 +540,11 @@ def canon_model(step_str):
         c['intro'] = None
     else:
         c['intro'] = {}
-        for k, (kind, raw, _, _) in st['opts'].items():
+        # every option is listed with its EFFECTIVE value (get_value_for: the stored value, or the
+        # parent's value for a yielding option), mintro._list_buildoptions.add_keys
+        for k, (kind, raw, _, eff) in st['opts'].items():
             t, ch = intro_kind(kind)
-            c['intro'][k[1:] if k.startswith(':') else k] = [t, ch, raw]
+            c['intro'][k[1:] if k.startswith(':') else k] = [t, ch, eff]
         # mintro._list_buildoptions also lists every per-subproject override of a built-in option
         # under its subproject-qualified name, with the overriding value and the type / choices of
         # the global option (the model's intro component is a snapshot of the whole store)
